@@ -52,10 +52,16 @@ def value_uses_of_enum(prog: Program, enum_q: str, member: str):
 
 def run(prog: Program, rep, tier: str) -> None:
     rep.explanation = EXPLANATION
+    from . import c19 as _c19
+    _c19.evaluator_memoryless(prog, rep)    # the evaluator answers every request with the value at the requested point
     rep.assumptions += ["scipy.integrate.solve_ivp reports a terminal event at a root of the event function",
                         "numpy / scipy kernels compute what their names say"]
     gates(prog, rep)
     residuals(prog, rep)
+    # every quantity this property speaks about is computed from the user's callback values: the wrapper problems (scaling,
+    # slacks) must hand them on without writing into the objects the callbacks returned (C04 / C11's rule on those constructs)
+    from . import c04 as _c04
+    _c04.callback_results_kept(prog, rep)
     # (3) + (4): exponents, inverse pairs, restore wiring, slack layout  (C04's rules on the same constructs)
     # the slack embedding is what turns the sign of the bound multiplier of slack i into the sign condition on y_i
     # (d/ds_i: -y_i + d_si = 0), so its agreement rules are necessary conditions here as well
